@@ -7,3 +7,4 @@ git -C /repo worktree prune
 git -C /repo worktree add --detach $d/repo HEAD >/dev/null 2>&1
 jq -c "select(.id==\"$id\")" /verif/properties.jsonl | jq . > $d/property.json
 echo $d
+sed "s/@ID@/$id/g" /verif/SEED_PROMPT.txt > $d/TASK.md
